@@ -263,6 +263,9 @@ def fold_const_switches(body, rounds=3, discr_of=None):
                     rv = ds[0]
                     if via_discr:
                         # the discriminant of a value whose only definition is a field-less enum literal
+                        if rv["k"] == "agg" and rv.get("ak") == "adt" and rv.get("adt") in (OPT, RES) and isinstance(rv.get("vi"), int):
+                            val = rv["vi"]      # Some(..)/None, Ok(..)/Err(..) passed as a literal to an expanded helper
+                            break
                         if rv["k"] == "agg" and rv.get("ak") == "adt" and not rv.get("ops") and discr_of is not None:
                             val = discr_of(rv.get("adt"), rv.get("variant"))
                             break
@@ -954,6 +957,35 @@ def _opt_filter_some(inl, b, t, cls, pl):
     _finish(inl, no, t, _agg(OPT, "None", 0, []))
 
 
+def _build_opt_zip(inl, i, t, cls):
+    """a.zip(b): Some((x, y)) when both are Some, else None."""
+    line = t.get("line", 0)
+    d, ch = inl.depth[i], inl.chain[i]
+    b = inl.blocks[i]
+    cleanup = b["cleanup"]
+    if t["args"][0]["k"] == "const" or t["args"][1]["k"] == "const":
+        return False
+    la = inl._new_local(t["atys"][0] if t.get("atys") else OPT)
+    lb = inl._new_local(t["atys"][1] if t.get("atys") and len(t["atys"]) > 1 else OPT)
+    b["stmts"].append(_assign(la, _use(copy.deepcopy(t["args"][0])), line))
+    b["stmts"].append(_assign(lb, _use(copy.deepcopy(t["args"][1])), line))
+    da = inl._new_local("isize")
+    b["stmts"].append(_assign(da, {"k": "discr", "pl": {"l": la, "p": []}}, line))
+    none = inl._new_block(d, ch, cleanup, line)
+    some_a = inl._new_block(d, ch, cleanup, line)
+    b["term"] = {"k": "switch", "op": _mv(da), "dty": "isize", "vals": [0], "tgts": [none], "otherwise": some_a, "line": line, "exp": False}
+    db = inl._new_local("isize")
+    inl.blocks[some_a]["stmts"].append(_assign(db, {"k": "discr", "pl": {"l": lb, "p": []}}, line))
+    both = inl._new_block(d, ch, cleanup, line)
+    inl.blocks[some_a]["term"] = {"k": "switch", "op": _mv(db), "dty": "isize", "vals": [0], "tgts": [none], "otherwise": both, "line": line, "exp": False}
+    _finish(inl, none, t, _agg(OPT, "None", 0, []))
+    tup = inl._new_local("(?, ?)")
+    inl.blocks[both]["stmts"].append(_assign(tup, {"k": "agg", "ak": "tuple", "ops": [_mvp(_variant_field({"l": la, "p": []}, "Some", 1, OPT)),
+                                                                                 _mvp(_variant_field({"l": lb, "p": []}, "Some", 1, OPT))]}, line))
+    _finish(inl, both, t, _agg(OPT, "Some", 1, [_mv(tup)]))
+
+
+_reg("opt", "zip", [], _build_opt_zip)
 _reg("opt", "filter", [1], _opt_build(_opt_filter_some, lambda inl, b, t, cls, pl: _finish(inl, b, t, _agg(OPT, "None", 0, []))))
 
 # ---- Result
@@ -1171,6 +1203,19 @@ def _build_find(inl, i, t, cls):
                lambda end: _finish(inl, end, t, _agg(OPT, "None", 0, [])))
 
 
+def _build_find_map(inl, i, t, cls):
+    def on_item(blk, rl, item, head):
+        line = t.get("line", 0)
+        dl = inl._new_local("isize")
+        inl.blocks[blk]["stmts"].append(_assign(dl, {"k": "discr", "pl": {"l": rl, "p": []}}, line))
+        none = inl._new_block(inl.depth[blk], inl.chain[blk], inl.blocks[blk]["cleanup"], line)
+        some = inl._new_block(inl.depth[blk], inl.chain[blk], inl.blocks[blk]["cleanup"], line)
+        inl.blocks[blk]["term"] = {"k": "switch", "op": _mv(dl), "dty": "isize", "vals": [0], "tgts": [none], "otherwise": some, "line": line, "exp": False}
+        _goto(inl, none, head, line)
+        _finish(inl, some, t, _agg(OPT, "Some", 1, [_mvp(_variant_field({"l": rl, "p": []}, "Some", 1, OPT))]))
+    _iter_loop(inl, i, t, cls[1], False, on_item, lambda end: _finish(inl, end, t, _agg(OPT, "None", 0, [])))
+
+
 def _build_for_each(inl, i, t, cls):
     _iter_loop(inl, i, t, cls[1], False,
                lambda blk, rl, item, head: _goto(inl, blk, head, t.get("line", 0)),
@@ -1198,6 +1243,7 @@ def _build_try_for_each(inl, i, t, cls):
 _reg("iter", "any", [1], _build_any)
 _reg("iter", "all", [1], _build_all)
 _reg("iter", "find", [1], _build_find)
+_reg("iter", "find_map", [1], _build_find_map)
 _reg("iter", "for_each", [1], _build_for_each)
 _reg("iter", "try_for_each", [1], _build_try_for_each)
 
